@@ -5,6 +5,7 @@ package main
 
 import (
 	"fmt"
+	"go/constant"
 	"go/token"
 	"go/types"
 	"sort"
@@ -111,6 +112,16 @@ func (f *Frame) call(in ssa.Instruction, cc *ssa.CallCommon, st *State) []Term {
 	switch name {
 	case "__forall", "__exists":
 		return f.quantifier(name == "__forall", cc, st)
+	case "__called", "__failed":
+		k, ok := cc.Args[0].(*ssa.Const)
+		if !ok {
+			c.unsupported(f, name+" needs a string literal")
+		}
+		key := strings.TrimPrefix(name, "__") + ":" + constant.StringVal(k.Value)
+		if v, ok := st.Ghost[key]; ok {
+			return []Term{v}
+		}
+		return []Term{TFalse}
 	case "__same":
 		var cs []Term
 		lay := layout(cc.Args[0].Type())
@@ -147,6 +158,11 @@ func (f *Frame) call(in ssa.Instruction, cc *ssa.CallCommon, st *State) []Term {
 	if blk != nil && blk.Flags["inline"] {
 		return f.inline(callee, args, nil, st, in)
 	}
+	if blk != nil && blk.FromRule != nil && len(blk.Post) == 0 {
+		// a rule-derived block only describes how the method is checked
+		// itself; it is not a contract for its callers
+		blk = nil
+	}
 	if blk != nil && (len(blk.Pre) > 0 || len(blk.Post) > 0 || blk.Flags["lemma"] || blk.Flags["trusted"] || blk.Flags["opaque"]) && callee != f.topFrame().fn {
 		return f.applyContract(in, cc, callee, blk, args, st)
 	}
@@ -160,6 +176,11 @@ func (f *Frame) call(in ssa.Instruction, cc *ssa.CallCommon, st *State) []Term {
 	if callee.Parent() != nil && inModule(callee) {
 		// anonymous function called directly
 		return f.inline(callee, args, nil, st, in)
+	}
+	if blk == nil && inModule(callee) && f.depth < 3 && smallLeaf(callee) && !c.eng.isRecursive(callee) {
+		if res, ok := f.tryInline(callee, args, st, in); ok {
+			return res
+		}
 	}
 	return f.opaqueCall(in, cc, callee, args, st)
 }
@@ -500,7 +521,15 @@ func (f *Frame) applyContract(in ssa.Instruction, cc *ssa.CallCommon, callee *ss
 	pos := in.Pos()
 	c.used[blk] = true
 	for _, cl := range blk.Pre {
-		t := c.evalSpecFn(cl.Fn, args, st, snapOf(st), f)[0]
+		pa := args
+		if cl.RecvOnly {
+			// rule-level requires are object invariants assumed for every
+			// method of the type (listed in the trusted base), not call-site
+			// preconditions
+			c.note("assumed", "object invariant assumed at method entry: "+cl.Text+" ("+blk.RecvType+")")
+			continue
+		}
+		t := c.evalSpecFn(cl.Fn, pa, st, snapOf(st), f)[0]
 		t = c.define("pre", t)
 		c.addObl(&Obligation{Name: c.oblName(f.label, "pre@"+blk.QualName()), Kind: "pre@call", Fn: f.label, Pos: f.posOf(pos), Text: "requires " + cl.Text + "  [at call of " + blk.QualName() + "]", Reach: st.Reach, Goal: t, Clause: cl})
 		st.assume(c, t)
@@ -526,12 +555,21 @@ func (f *Frame) applyContract(in ssa.Instruction, cc *ssa.CallCommon, callee *ss
 	}
 	all := append(append([][]Term{}, args...), resVals...)
 	for _, cl := range blk.Post {
-		t := c.evalSpecFn(cl.Fn, all, st, old, f)[0]
+		pa := all
+		if cl.RecvOnly {
+			pa = all[:1]
+		}
+		t := c.evalSpecFn(cl.Fn, pa, st, old, f)[0]
 		st.assume(c, t)
 	}
 	if blk.Flags["trusted"] || blk.Flags["assume-contract"] {
 		c.note("assumed", "assumed contract of "+blk.QualName())
 	}
+	sn := blk.FuncName
+	if blk.RecvType != "" {
+		sn = strings.TrimPrefix(blk.RecvType, "*") + "." + blk.FuncName
+	}
+	f.recordCall(st, cc, res, sn)
 	return res
 }
 
@@ -599,6 +637,9 @@ func (f *Frame) callsiteObligations(in ssa.Instruction, shortName, qualName stri
 			continue
 		}
 		a := append([][]Term{}, top.argVals...)
+		if cl.RecvOnly {
+			a = a[:1]
+		}
 		if cl.NParams > 0 {
 			if cl.NParams != len(args) {
 				panic(fmt.Sprintf("%s:%d: callsite clause binds %d callee arguments, call has %d", cl.File, cl.Line, cl.NParams, len(args)))
@@ -659,8 +700,22 @@ func (f *Frame) opaqueCall(in ssa.Instruction, cc *ssa.CallCommon, callee *ssa.F
 		st.Reach = TFalse
 		return zeroLeaves(cc.Signature().Results())
 	}
+	res := f.freshResults(cc, st, name)
+	if callee != nil {
+		short := callee.Name()
+		if callee.Signature.Recv() != nil {
+			rt := callee.Signature.Recv().Type()
+			if p, ok := rt.(*types.Pointer); ok {
+				rt = p.Elem()
+			}
+			if n, ok := rt.(*types.Named); ok {
+				short = n.Obj().Name() + "." + callee.Name()
+			}
+		}
+		f.recordCall(st, cc, res, short)
+	}
 	_ = qual
-	return f.freshResults(cc, st, name)
+	return res
 }
 
 func neverReturns(fn *ssa.Function) bool {
@@ -738,7 +793,31 @@ func (f *Frame) invoke(in ssa.Instruction, cc *ssa.CallCommon, st *State) []Term
 	c.eng.directWrites(f.fn, fake, ms)
 	f.havocKeys(ms, st)
 	f.havocEscapedCells(cc, st)
-	return f.freshResults(cc, st, cc.Method.Name())
+	res := f.freshResults(cc, st, cc.Method.Name())
+	f.recordCall(st, cc, res, short, qual)
+	return res
+}
+
+// recordCall maintains the ghost call records read by __called / __failed.
+func (f *Frame) recordCall(st *State, cc *ssa.CallCommon, res []Term, names ...string) {
+	if f.spec {
+		return
+	}
+	if st.Ghost == nil {
+		st.Ghost = map[string]Term{}
+	}
+	failed := TFalse
+	rt := cc.Signature().Results()
+	if rt.Len() > 0 {
+		last := rt.At(rt.Len() - 1).Type()
+		if types.IsInterface(last) && last.String() == "error" {
+			failed = Not(Eq(res[len(res)-2], IntLit(0)))
+		}
+	}
+	for _, n := range names {
+		st.Ghost["called:"+n] = TTrue
+		st.Ghost["failed:"+n] = failed
+	}
 }
 
 func (e *Engine) ifaceBlock(it types.Type, method string) *Block { return nil }
@@ -927,3 +1006,39 @@ func (f *Frame) builtinCopy(in ssa.Instruction, cc *ssa.CallCommon, args [][]Ter
 }
 
 var _ = token.NoPos
+
+// smallLeaf: loop-free module functions of a few instructions are executed in
+// place instead of being abstracted (no contract needed for trivial helpers).
+func smallLeaf(fn *ssa.Function) bool {
+	if len(fn.Blocks) == 0 || len(fn.Blocks) > 12 || fn.Recover != nil {
+		return false
+	}
+	n := 0
+	for _, b := range fn.Blocks {
+		n += len(b.Instrs)
+		for _, in := range b.Instrs {
+			switch in.(type) {
+			case *ssa.Go, *ssa.Select, *ssa.Defer, *ssa.MakeClosure, *ssa.Send:
+				return false
+			}
+		}
+	}
+	return n <= 60 && len(findLoops(fn)) == 0
+}
+
+func (f *Frame) tryInline(fn *ssa.Function, args [][]Term, st *State, in ssa.Instruction) (res []Term, ok bool) {
+	c := f.ctx
+	nObl := len(c.obls)
+	defer func() {
+		if r := recover(); r != nil {
+			if _, isU := r.(unsupportedErr); isU {
+				c.obls = c.obls[:nObl]
+				res, ok = nil, false
+				return
+			}
+			panic(r)
+		}
+	}()
+	res = f.inline(fn, args, nil, st, in)
+	return res, true
+}
